@@ -4,6 +4,7 @@
 import PG.Model.Trace
 import PG.Lemmas.ListBasics
 import PG.Lemmas.TraceRT
+import PG.Lemmas.Utf8Spec
 namespace PG
 
 /-- frames of the property's domain: class and method without `(`, method without dots, a
